@@ -28,6 +28,8 @@ def hHoldsDisp : HPc → Bool
   | .wantUpd _ _ _ => true
   | .snapMod _ _ _ _ => true
   | .snapSend _ _ _ _ _ _ => true
+  | .wantAcc _ _ _ _ _ => true
+  | .relAcc _ _ _ _ _ => true
   | .relDisp _ _ => true
   | .rep _ _ => false
   | .done => false
@@ -76,6 +78,12 @@ theorem afterSnap_holds (s : Scope) (l : List Mod) :
 @[simp] theorem hHoldsDisp_snapSend {s} {m} {p} {e} {ps} {rest} : hHoldsDisp (.snapSend s m p e ps rest) = true := rfl
 @[simp] theorem hHoldsSub_snapSend {s} {m} {p} {e} {ps} {rest} : hHoldsSub (.snapSend s m p e ps rest) = false := rfl
 @[simp] theorem hHoldsUpd_snapSend {s} {m} {p} {e} {ps} {rest} {m' : Mod} : hHoldsUpd (.snapSend s m p e ps rest) m' = (m' == m) := rfl
+@[simp] theorem hHoldsDisp_wantAcc {w} {m} {p} {e} {n} : hHoldsDisp (.wantAcc w m p e n) = true := rfl
+@[simp] theorem hHoldsSub_wantAcc {w} {m} {p} {e} {n} : hHoldsSub (.wantAcc w m p e n) = false := rfl
+@[simp] theorem hHoldsUpd_wantAcc {w} {m} {p} {e} {n} {m' : Mod} : hHoldsUpd (.wantAcc w m p e n) m' = false := rfl
+@[simp] theorem hHoldsDisp_relAcc {w} {m} {p} {e} {n} : hHoldsDisp (.relAcc w m p e n) = true := rfl
+@[simp] theorem hHoldsSub_relAcc {w} {m} {p} {e} {n} : hHoldsSub (.relAcc w m p e n) = false := rfl
+@[simp] theorem hHoldsUpd_relAcc {w} {m} {p} {e} {n} {m' : Mod} : hHoldsUpd (.relAcc w m p e n) m' = false := rfl
 @[simp] theorem hHoldsDisp_relDisp {r} {ok} : hHoldsDisp (.relDisp r ok) = true := rfl
 @[simp] theorem hHoldsSub_relDisp {r} {ok} : hHoldsSub (.relDisp r ok) = false := rfl
 @[simp] theorem hHoldsUpd_relDisp {r} {ok} {m' : Mod} : hHoldsUpd (.relDisp r ok) m' = false := rfl
@@ -135,6 +143,29 @@ macro "step_cases" hs:ident : tactic =>
 @[simp] theorem afterTable_upd (cfg c r m) : hHoldsUpd (afterTable cfg c r) m = false := by
   cases r <;> simp [afterTable]
 @[simp] theorem afterTable_ne (cfg c r) : afterTable cfg c r ≠ .start .disconnect := by cases r <;> simp [afterTable]
+@[simp] theorem afterCall_disp (w m p e n) : hHoldsDisp (afterCall w m p e n) = true := by
+  unfold afterCall; split <;> simp
+@[simp] theorem afterCall_sub (w m p e n) : hHoldsSub (afterCall w m p e n) = false := by
+  unfold afterCall; split <;> simp
+@[simp] theorem afterCall_upd (w m p e n m') : hHoldsUpd (afterCall w m p e n) m' = false := by
+  unfold afterCall; split <;> simp
+@[simp] theorem afterCall_ne (w m p e n) : afterCall w m p e n ≠ .start .disconnect := by
+  unfold afterCall; split <;> simp
+@[simp] theorem afterStart_disp (cfg r) (h : r ≠ .disconnect) : hHoldsDisp (afterStart cfg r) = true := by
+  cases r <;> simp_all [afterStart] <;> split <;> simp
+@[simp] theorem afterStart_sub (cfg r) : hHoldsSub (afterStart cfg r) = false := by
+  cases r <;> simp [afterStart] <;> split <;> simp
+@[simp] theorem afterStart_upd (cfg r m) : hHoldsUpd (afterStart cfg r) m = false := by
+  cases r <;> simp [afterStart] <;> split <;> simp
+@[simp] theorem afterStart_ne (cfg r) : afterStart cfg r ≠ .start .disconnect := by
+  cases r <;> simp [afterStart] <;> split <;> simp
+
+theorem stepUG_some {cfg : Cfg} {σ σ' : State} {k : Nat} {arg : Conn} (h : stepUG cfg σ k arg = some σ') :
+    stepU cfg σ k arg = some σ' := by
+  unfold stepUG at h
+  split at h
+  · exact h
+  · cases h
 
 
 def lockMove {T : Type} (o : Option T) (t : T) (b b' : Bool) : Option T :=
@@ -157,7 +188,7 @@ theorem lockMove_inv {T : Type} [DecidableEq T] (holds holds' : T → Bool) (o :
 
 theorem stepH_frame (cfg : Cfg) (σ σ' : State) (c : Conn) (hn : σ.hpc c ≠ .start .disconnect)
     (hs : stepH cfg σ c = some σ') :
-    σ'.hpc = set σ.hpc c (σ'.hpc c) ∧ σ'.upc = σ.upc ∧ σ'.uscript = σ.uscript ∧ σ'.cache = σ.cache ∧
+    σ'.hpc = set σ.hpc c (σ'.hpc c) ∧ σ'.upc = σ.upc ∧ (∀ k, k ≠ own c → σ'.uscript k = σ.uscript k) ∧ σ'.cache = σ.cache ∧
     σ'.disp = lockMove σ.disp c (hHoldsDisp (σ.hpc c)) (hHoldsDisp (σ'.hpc c)) ∧
     (hHoldsDisp (σ'.hpc c) = true → hHoldsDisp (σ.hpc c) = false → σ.disp = none) ∧
     σ'.sub = lockMove σ.sub (.h c) (hHoldsSub (σ.hpc c)) (hHoldsSub (σ'.hpc c)) ∧
@@ -261,108 +292,12 @@ theorem lockInv_step (cfg : Cfg) (σ σ' : State) (a : Act) (hI : LockInv σ) (h
   unfold step at hs
   split at hs
   · exact lockInv_stepH cfg σ σ' _ hI hs
-  · exact lockInv_stepU cfg σ σ' _ _ hI hs
+  · exact lockInv_stepU cfg σ σ' _ _ hI (stepUG_some hs)
 
 theorem lockInv_reach (cfg : Cfg) (hs us cache) (σ : State) (h : Reach cfg (init hs us cache) σ) : LockInv σ := by
   induction h with
   | init => exact lockInv_init hs us cache
   | step a _ hstep ih => exact lockInv_step cfg _ _ a ih hstep
-
-/-! ## no reachable state has every thread blocked -/
-
-theorem stepH_enabled (cfg : Cfg) (σ : State) (c : Conn) :
-    (stepH cfg σ c).isSome = (match σ.hpc c with
-      | .start _ => decide (σ.disp = none)
-      | .wantSub _ => decide (σ.sub = none)
-      | .wantUpd _ m _ => decide (σ.upd m = none)
-      | .done => false
-      | _ => true) := by
-  unfold stepH
-  repeat' split
-  all_goals simp_all
-
-/-- the receiver an updater may always choose -/
-def someArg (σ : State) (k : Nat) : Conn :=
-  match σ.upc k with
-  | .sending _ _ _ (x :: _) => x
-  | _ => 0
-
-theorem stepU_enabled (cfg : Cfg) (σ : State) (k : Nat) :
-    (stepU cfg σ k (someArg σ k)).isSome = (match σ.upc k with
-      | .idle => (match σ.uscript k with | [] => true | (m, _, _) :: _ => decide (σ.upd m = none))
-      | .wantSub _ _ _ => decide (σ.sub = none)
-      | .done => false
-      | _ => true) := by
-  cases hpc : σ.upc k with
-  | idle =>
-    simp only [stepU, hpc]
-    split <;> simp_all
-    split <;> simp_all
-    split <;> simp_all
-  | wantSub m p e => simp only [stepU, hpc]; split <;> simp_all
-  | sending m p e l => cases l <;> simp [stepU, someArg, hpc]
-  | relUpd m em => simp [stepU, hpc]
-  | done => simp [stepU, hpc]
-
-theorem no_deadlock (cfg : Cfg) (σ : State) (hI : LockInv σ) (t : Tid) (ht : finished σ t = false) :
-    ∃ a, (step cfg σ a).isSome = true := by
-  cases hsub : σ.sub with
-  | some t' =>
-    have := (hI.sub t').2 hsub
-    cases t' with
-    | h c =>
-      refine ⟨⟨.h c, 0⟩, ?_⟩
-      simp only [step, stepH_enabled]
-      simp only [holdsSub] at this
-      cases hpc : σ.hpc c <;> simp_all
-    | u k =>
-      refine ⟨⟨.u k, someArg σ k⟩, ?_⟩
-      simp only [step, stepU_enabled]
-      simp only [holdsSub] at this
-      cases hpc : σ.upc k <;> simp_all
-  | none =>
-    by_cases hupd : ∃ m t', σ.upd m = some t'
-    · obtain ⟨m, t', hm⟩ := hupd
-      have := (hI.upd m t').2 hm
-      cases t' with
-      | h c =>
-        refine ⟨⟨.h c, 0⟩, ?_⟩
-        simp only [step, stepH_enabled]
-        simp only [holdsUpd] at this
-        cases hpc : σ.hpc c <;> simp_all
-      | u k =>
-        refine ⟨⟨.u k, someArg σ k⟩, ?_⟩
-        simp only [step, stepU_enabled]
-        simp only [holdsUpd] at this
-        cases hpc : σ.upc k <;> simp_all
-    · have hfree : ∀ m, σ.upd m = none := by
-        intro m
-        cases h : σ.upd m with
-        | none => rfl
-        | some t' => exact absurd ⟨m, t', h⟩ hupd
-      cases hdisp : σ.disp with
-      | some c =>
-        have := (hI.disp c).2 hdisp
-        refine ⟨⟨.h c, 0⟩, ?_⟩
-        simp only [step, stepH_enabled]
-        have hu := fun m => (hI.upd m (.h c)).1
-        simp only [holdsUpd] at hu
-        have hs := (hI.sub (.h c)).1
-        simp only [holdsSub] at hs
-        cases hpc : σ.hpc c <;> simp_all
-      | none =>
-        cases t with
-        | h c =>
-          refine ⟨⟨.h c, 0⟩, ?_⟩
-          simp only [step, stepH_enabled]
-          simp only [finished] at ht
-          cases hpc : σ.hpc c <;> simp_all
-        | u k =>
-          refine ⟨⟨.u k, someArg σ k⟩, ?_⟩
-          simp only [step, stepU_enabled]
-          simp only [finished] at ht
-          cases hpc : σ.upc k <;> simp_all
-          split <;> simp_all
 
 /-! ## tables, scopes and the Silent invariant -/
 
@@ -859,6 +794,8 @@ theorem tableHas_tableWrite (σ : State) (c : Conn) (r : Req) (c' : Conn) (a : S
   | deactivate s0 => simp [tableWrite, tableHas_unregister, ends]
   | ident => simp [tableWrite, tableHas_resetConn, ends]
   | disconnect => simp [tableWrite, tableHas_resetConn, ends]
+  | rw w m p e => simp [tableWrite, ends]
+  | malformed a s => simp [tableWrite, ends]
 
 theorem tableHas_write_other (σ : State) (c c' : Conn) (r : Req) (s : Scope) (h : c' ≠ c) :
     tableHas (tableWrite σ c r) c' s = tableHas σ c' s := by
@@ -927,6 +864,25 @@ theorem covInv_afterSnap (cfg : Cfg) (s : Scope) (l : List Mod) (h : ∀ m ∈ l
   | nil => simp [afterSnap, covInv]
   | cons m rest => simpa [afterSnap, covInv] using h
 
+theorem activating_afterStart (cfg : Cfg) (r : Req) : activating (afterStart cfg r) = activating (.start r) := by
+  cases r with
+  | rw w m p e => by_cases hk : cfg.rw w m p = .calls <;> simp [afterStart, hk, activating]
+  | _ => simp [afterStart, activating]
+
+theorem ending_afterStart (cfg : Cfg) (r r' : Req) (h : ending (afterStart cfg r) = some r') : ∀ a, ends r' a = false := by
+  cases r with
+  | rw w m p e =>
+    by_cases hk : cfg.rw w m p = .calls
+    · simp [afterStart, hk, ending] at h
+    · simp [afterStart, hk, ending, replyEnds] at h
+      intro a; rw [← h]; rfl
+  | _ => simp [afterStart, ending] at h
+
+theorem covInv_afterStart (cfg : Cfg) (r : Req) : covInv cfg (afterStart cfg r) := by
+  cases r with
+  | rw w m p e => by_cases hk : cfg.rw w m p = .calls <;> simp [afterStart, hk, covInv]
+  | _ => simp [afterStart, covInv]
+
 theorem silentInv_stepH (cfg : Cfg) (σ σ' : State) (c : Conn) (hI : SilentInv cfg σ) (hL : LockInv σ)
     (hs : stepH cfg σ c = some σ') : SilentInv cfg σ' := by
   have hacc := silent_acc_stepH cfg σ σ' c hI hs
@@ -940,7 +896,8 @@ theorem silentInv_stepH (cfg : Cfg) (σ σ' : State) (c : Conn) (hI : SilentInv 
     exact silentInv_begin cfg σ _ c r hI hacc heq rfl rfl rfl rfl rfl
   · rename_i r heq _ _
     exact silentInv_pcOnly cfg σ _ c _ hI hacc rfl rfl rfl rfl rfl
-      (by intro s h; rw [heq]; cases r <;> simp_all [activating]) (by simp [ending]) (by simp [covInv])
+      (by intro s h; rw [heq]; rw [activating_afterStart] at h; exact h)
+      (by intro r' h; right; exact ending_afterStart cfg r r' h) (covInv_afterStart cfg r)
   · rename_i r heq _ hinv
     exact silentInv_pcOnly cfg σ _ c _ hI hacc rfl rfl rfl rfl rfl
       (by intro s h; rw [heq]; cases r <;> simp_all [activating])
@@ -959,12 +916,16 @@ theorem silentInv_stepH (cfg : Cfg) (σ σ' : State) (c : Conn) (hI : SilentInv 
       | deactivate s0 => simp [afterTable, activating] at h
       | ident => simp [afterTable, activating] at h
       | disconnect => exact absurd rfl hr
+      | rw w m p e => simp [afterTable, activating] at h
+      | malformed a s => simp [afterTable, activating] at h
     · intro r' h; rw [heq]; left
       cases r with
       | activate s => simp only [afterTable] at h; rw [ending_afterSnap s _ r' h]; rfl
       | deactivate s => simpa [afterTable, ending, replyEnds] using h
       | ident => simpa [afterTable, ending, replyEnds] using h
       | disconnect => exact absurd rfl hr
+      | rw w m p e => simpa [afterTable, ending, replyEnds] using h
+      | malformed a s => simpa [afterTable, ending, replyEnds] using h
     · cases r with
       | activate s => exact covInv_afterSnap cfg s _ (goodMod_scopeMods cfg s)
       | _ => simp [afterTable, covInv]
@@ -991,6 +952,16 @@ theorem silentInv_stepH (cfg : Cfg) (σ σ' : State) (c : Conn) (hI : SilentInv 
       (by simp only [liveOf]; rw [Mon.after_append]; rfl) rfl rfl rfl
       (by intro s' h; rw [heq]; simpa [activating] using h) (by simp [ending])
       (by simp only [covInv] at hcov ⊢; exact ⟨hcov.2.1, hcov.2.2⟩)
+  · -- the call: the announcement is handed to the connection's updater slot
+    exact silentInv_pcOnly cfg σ _ c _ hI hacc rfl rfl rfl rfl rfl
+      (by intro s' h; simp [activating] at h) (by simp [ending]) (by simp [covInv])
+  · exact silentInv_pcOnly cfg σ _ c _ hI hacc rfl rfl rfl rfl rfl
+      (by intro s' h; simp [activating] at h) (by simp [ending]) (by simp [covInv])
+  · exact silentInv_pcOnly cfg σ _ c _ hI hacc rfl rfl rfl rfl rfl
+      (by intro s' h; unfold afterCall at h; split at h <;> simp [activating] at h)
+      (by intro r' h; right; unfold afterCall at h; split at h <;> simp [ending] at h
+          intro a; rw [← h.2]; rfl)
+      (by unfold afterCall; split <;> simp [covInv])
   · rename_i r ok heq
     exact silentInv_pcOnly cfg σ _ c _ hI hacc rfl rfl rfl rfl rfl
       (by intro s' h; rw [heq]; cases r <;> simp_all [activating])
@@ -1007,7 +978,7 @@ theorem silentInv_reach (cfg : Cfg) (hs us cache) (σ : State) (h : Reach cfg (i
     unfold step at hstep
     split at hstep
     · exact silentInv_stepH cfg _ _ _ ih hL hstep
-    · exact silentInv_stepU cfg _ _ _ _ ih hstep
+    · exact silentInv_stepU cfg _ _ _ _ ih (stepUG_some hstep)
 
 
 /-! ## runs -/
